@@ -198,16 +198,26 @@ func unescapeHTML(s string) string {
 		} else if body[0] == '#' {
 			if body[1] == 'x' || body[1] == 'X' {
 				if num, err := strconv.ParseInt(body[2:], 16, 32); err == nil {
-					return string(rune(num))
+					return codePointToString(num)
 				}
 			} else {
 				if num, err := strconv.ParseInt(body[1:], 10, 32); err == nil {
-					return string(rune(num))
+					return codePointToString(num)
 				}
 			}
 		}
 		return entity
 	})
+}
+
+// Converts the number in a numeric character reference to a string. Invalid
+// code points and, for security reasons, U+0000 are replaced by U+FFFD:
+// https://spec.commonmark.org/0.31.2/#decimal-numeric-character
+func codePointToString(num int64) string {
+	if num == 0 {
+		return "\uFFFD"
+	}
+	return string(rune(num))
 }
 
 // Codec is used to render output.
